@@ -25,7 +25,18 @@ type jdoc struct {
 	alive bool
 }
 
+// compositeUniqueAd: when set, the one-to-one primary side carries a composite unique index whose first field is the
+// relation id (it constrains the pair, not the link)
+var compositeUniqueAd bool
+
 func joinSchemas(c int, indexed bool) string {
+	if compositeUniqueAd {
+		return fmt.Sprintf(`
+type Au%[1]d { k: Int rating: Int name: String books: [Bk%[1]d] addr: Ad%[1]d }
+type Bk%[1]d { k: Int pages: Int title: String author: Au%[1]d }
+type Ad%[1]d @index(unique: true, includes: [{field: "owner_id"}, {field: "city"}]) { k: Int city: String owner: Au%[1]d @primary }
+`, c)
+	}
 	ix := func(s string) string {
 		if indexed {
 			return s + " @index"
@@ -58,6 +69,11 @@ func engJoin(e *Env) {
 	var cases []string
 	for wi := 0; wi < nWorlds; wi++ {
 		indexed := wi%2 == 1
+		compositeUniqueAd = wi%3 == 2
+		if compositeUniqueAd {
+			indexed = false
+			e.count("worlds_with_composite_unique_index_on_the_link")
+		}
 		x.addSchema(ctx, joinSchemas(wi, indexed))
 		au, bk, ad := fmt.Sprintf("Au%d", wi), fmt.Sprintf("Bk%d", wi), fmt.Sprintf("Ad%d", wi)
 		e.count(fmt.Sprintf("indexed_%v", indexed))
